@@ -1,4 +1,5 @@
 ENGINE_TEXTS = {
+    "stream": "streamsim: the real encoders, decoders, DecoderFor, NewRoundRobinDecoder and targeters over simulated files (Write-call boundaries recorded, crash = byte prefix, storage faults) and simulated readers (tape-chosen chunking, (n>0,EOF), zero-length reads, injected read errors); single-threaded, no clock",
     "attack": "attacksim: the real Attacker/hit/Stop code inside a testing/synctest bubble; a seeded controller releases one parked goroutine at a time (pacer, targeter, transport, body reader, consumers, Stop callers, armed statement breakpoints, mediated selects), advances the fake clock and injects faults; a reference model of the attack is checked in lock-step; plain and -race builds",
 }
 
@@ -19,5 +20,22 @@ TEXTS = {
             "level_text": "for all delivered results of a run: seq order = timestamp order, timestamp >= attack start and <= transport entry, latency >= time spent in the transport, End = Timestamp+Latency; workers are parked between the statements of hit() while the clock is advanced and other workers run through; the -race build reports unsynchronised access to the sequence counter",
             "level_note": _ATK_NOTE},
 }
+
+_STREAM_NOTE = "trusted: encoding/gob, encoding/csv, easyjson runtime, the harness's reference/independent readers; sequences are seeded samples, never exhaustive over inputs"
+
+TEXTS.update({
+    "C07": {"engine": "stream", "design_ref": "§4 C07", "technique": "simulated stream delivery (chunked/short/zero-length reads, write boundaries) around seeded result generation; independent reader of the documented layout as second oracle",
+            "level_text": "exploration: round trip through each codec under adversarial read delivery plus an independently written CSV/JSON reader; fields enumerated by reflection so a new Result field is generated or the check stops; one known finding (CRLF in CSV text fields) is matched by an exact signature",
+            "level_note": _STREAM_NOTE},
+    "C08": {"engine": "stream", "design_ref": "§4 C08", "technique": "simulated readers with tape-chosen chunk boundaries feeding DecoderFor; independent writer as second producer; library-level transcoding chains",
+            "level_text": "exploration: detection must yield exactly the encoded sequence from record 0 (nothing sniffed is lost or replayed) for chunk boundaries inside/at the end of the first record, nil for inputs in none of the formats, and chains up to length 4 preserve the sequence",
+            "level_note": _STREAM_NOTE},
+    "C09": {"engine": "stream", "design_ref": "§4 C09", "technique": "crash-point enumeration: every byte offset of every generated gob/JSON stream, every record boundary of CSV streams, decoded and compared with the records completely written",
+            "level_text": "fault enumeration: exhaustive over cut points per stream (never over streams); after the complete records the decoder must report an error/end, never an extra or partly filled record; Write-call boundaries recorded per Encode",
+            "level_note": _STREAM_NOTE},
+    "C13": {"engine": "stream", "design_ref": "§4 C13", "technique": "several simulated inputs (parties) with independent chunking and one injected read failure feeding the real round-robin decoder",
+            "level_text": "exploration: merged sequence is a permutation of the union preserving each input's order, end only when all inputs are exhausted and on every later call; with a failing input only its own later records may be missing",
+            "level_note": _STREAM_NOTE},
+})
 
 NOT_APPLICABLE = {}
